@@ -69,11 +69,36 @@ type Disk struct {
 
 type stepLimit struct{}
 
+var cwdPrefix string
+
+// relCwd strips the worker's own working directory from an absolute path (a root given as an
+// absolute path makes every INCLUDE path absolute too); everything else is left as handed over.
+func relCwd(p string) string {
+	if cwdPrefix == "" {
+		if wd, err := os.Getwd(); err == nil {
+			cwdPrefix = wd + "/"
+		}
+	}
+	if cwdPrefix != "" && strings.HasPrefix(p, cwdPrefix) {
+		return p[len(cwdPrefix):]
+	}
+	// "../<name of the working directory>/x" is x as well
+	if cwdPrefix != "" && strings.HasPrefix(p, "../") {
+		wd := strings.TrimSuffix(cwdPrefix, "/")
+		up := "../" + wd[strings.LastIndexByte(wd, '/')+1:] + "/"
+		if strings.HasPrefix(p, up) {
+			return p[len(up):]
+		}
+	}
+	return p
+}
+
 func (d *Disk) Before(op, path, site string) error {
 	if len(d.log) >= d.limit {
 		d.overLimit = true
 		panic(stepLimit{})
 	}
+	path = relCwd(path)
 	d.log = append(d.log, Access{Seq: len(d.log), Op: op, Path: path, Site: site, Result: "?"})
 	var synth error
 	for i := range d.faults {
